@@ -142,6 +142,8 @@ def run(prog, rep, tier):
         raise Inconclusive("conditional: no NormalDistribution(mean, covariance) construction found", f.node)
     ref_mean = add(rV(MU, PY), mul(mul(rB(C, PY, PX), rinv(rB(C, PX, PX))), add(rA(Px), rV(MU, PX), -1)))
     ref_cov = add(rB(C, PY, PY), mul(mul(rB(C, PY, PX), rinv(rB(C, PX, PX))), rB(C, PX, PY)), -1)
+    from .common import pinv_cutoff
+    pinv_cutoff(rep, S, f, "FORMULA.conditional.cutoff")
     for c in cs:
         check_construction(rep, f, c, M, "conditional", ref_mean, ref_cov)
     rep.tables["conditional"] = {"mean": MN.show(ref_mean), "covariance": MN.show(ref_cov)}
